@@ -415,5 +415,271 @@ Proof.
   unfold st_tail_text in R. cbn [st_n0 st_ns st_first st_more st_db st_b1 st_b2 st_sgn st_b3 st_sgn2 st_b4] in R.
   unfold st_tree in R. cbn [st_n0 st_ns st_first st_more st_db] in R. rewrite Ht in R.
   apply R; try assumption. unfold st_ok. cbn [st_n0 st_ns st_first st_more st_db st_b1 st_b2 st_sgn st_b3 st_sgn2 st_b4].
-  repeat split; assumption.
+  repeat (split; [assumption|]). exact Hl'.
+Qed.
+
+Lemma name_app (n0 : chr) ns st z : n0 :: ns ++ st ++ z = (n0 :: ns ++ st) ++ z.
+Proof. cbn [app]. rewrite <- app_assoc. reflexivity. Qed.
+
+Lemma optnl_tabs o r X : optnl_ok o -> tabx (optnl_text o ++ r) X ->
+  exists o' X', X = optnl_text o' ++ X' /\ optnl_ok o' /\ tabx r X'.
+Proof.
+  destruct o as [l|]; cbn [optnl_text optnl_ok].
+  - intros Hl H. apply tabx_app_inv in H as (l' & X' & -> & Hl' & Hr). exists (Some l'), X'. cbn [optnl_text optnl_ok].
+    split; [reflexivity|]. split; [|exact Hr]. exact (tabx_blank_line pil_nodes pil_c pil_ws pil_comment_ok sp_in_ws l l' Hl Hl').
+  - intros _ H. exists None, X. cbn. auto.
+Qed.
+
+Theorem roundtrip_complex_tabs s y b E :
+  cx_ok s y -> blanks WS b -> stmt_end E [] -> nohead dbch E -> nohead [TAB] E ->
+  exists f0, forall f, f0 <= f -> parse_pil_fuel f (b ++ cx_kw ++ cx_tail_text s y E) = vals [cx_tree s].
+Proof.
+  intros (H0 & Hns & Hd0 & Hds0 & Hdoms & Hdb & Hb1 & Hb2 & Hb3 & Hb4 & Hsg & Hnl1 & Hnl2) Hb HE Hdbr Htab.
+  apply pil_tabs_reduce. intros X H Hnt.
+  tx_blk H b' X0 Hb' Hbn; [|exact Hb]. tx_lex H X1; [|reflexivity]. unfold cx_tail_text in H.
+  tx_blk H b1 X2 Hb1' Hn1; [|exact Hb1].
+  change (cx_n0 s :: cx_ns s ++ ?z) with ((cx_n0 s :: cx_ns s) ++ z) in H.
+  tx_lex H X3; [|exact (ident_no_tabs _ _ H0 Hns)].
+  tx_blk H b2 X4 Hb2' Hn2; [|exact Hb2]. tx_chr H X5; [|destruct Hsg as [-> | ->]; reflexivity].
+  apply optnl_tabs in H as (nl1 & X6 & -> & Hnl1' & H); [|exact Hnl1].
+  tx_blk H b3 X7 Hb3' Hn3; [|exact Hb3].
+  rewrite name_app in H.
+  tx_lex H X8; [|exact (name_no_tabs _ _ _ Hd0 Hds0)].
+  apply doms_tabs in H as (ds' & X9 & -> & Hds' & Hnm & H); [|exact Hdoms].
+  apply optnl_tabs in H as (nl2 & X10 & -> & Hnl2' & H); [|exact Hnl2].
+  tx_blk H b4 X11 Hb4' Hn4; [|exact Hb4]. tx_lex H E'; [|exact (dotb_no_tabs _ Hdb)].
+  destruct (tabx_head_keep dbch E E' Hdbr Htab H) as [Hdbr' _].
+  pose proof (tabx_stmt_end pil_nodes pil_c pil_ws pil_comment_ok sp_in_ws E E' HE H) as HE'.
+  pose proof (roundtrip_complex_parse (mkCx (cx_n0 s) (cx_ns s) (cx_d0 s) (cx_ds0 s) (cx_star0 s) ds' (cx_db s))
+                (mkCxLayout b1 b2 (cx_sgn y) nl1 b3 nl2 b4) b' E') as R.
+  unfold cx_tail_text in R. cbn [cx_n0 cx_ns cx_d0 cx_ds0 cx_star0 cx_doms cx_db cx_b1 cx_b2 cx_sgn cx_nl1 cx_b3 cx_nl2 cx_b4] in R.
+  unfold cx_tree, cx_first in R. cbn [cx_n0 cx_ns cx_d0 cx_ds0 cx_star0 cx_doms cx_db] in R.
+  rewrite <- (map_map d_name TStr ds'), Hnm, map_map in R.
+  rewrite <- name_app. rewrite <- name_app in Hnt.
+  apply R; try assumption; try exact Hnt. unfold cx_ok. cbn [cx_n0 cx_ns cx_d0 cx_ds0 cx_star0 cx_doms cx_db cx_b1 cx_b2 cx_sgn cx_nl1 cx_b3 cx_nl2 cx_b4].
+  repeat (split; [assumption|]). assumption.
+Qed.
+
+(* the refutation side: a tab right after the dot-bracket becomes part of the token *)
+Example structure_tab_after_dotbracket :
+  parse_pil (st_kw ++ [32; 120; 32; 61; 32; 97; 32; 58; 32; 46; 9; 10]%N)      (* "structure x = a : .\t\n" *)
+  = vals [TList [TStr tag_sc; TStr [120%N]; TList [TStr [97%N]]; TStr [46; 32; 32; 32; 32; 32]%N]].
+Proof. vm_compute. reflexivity. Qed.
+
+(* ---------------------------------------------------------------- kernel complexes *)
+Lemma sense_no_tabs n0 ns c s : memc n0 idch = true -> all_in idch ns -> no_tabs (sense_text n0 ns c s).
+Proof.
+  intros H0 Hns. unfold sense_text. apply no_tabs_cons; [apply (memc_no_tab idch); [reflexivity|exact H0]|].
+  apply no_tabs_app; [exact (idch_no_tabs _ Hns)|]. apply no_tabs_app; [destruct c; reflexivity|destruct s; reflexivity].
+Qed.
+Lemma tabx_sense_follow r r' : sense_follow r -> tabx r r' -> sense_follow r'.
+Proof. intros H Hx. unfold sense_follow in *. apply (tabx_nohead _ r r'); [reflexivity|exact H|exact Hx]. Qed.
+Lemma item_size_pos it : 1 <= item_size it.
+Proof. destruct it; cbn; lia. Qed.
+
+Lemma items_tabs_n : forall n l, items_size l <= n -> forall r X, items_wf l r -> tabx (items_text l r) X ->
+  exists l' X', X = items_text l' X' /\ items_wf l' X' /\ items_toks l' = items_toks l /\ length l' = length l /\ tabx r X'.
+Proof.
+  induction n as [|n IH]; intros l Hsz r X Hwf H.
+  - destruct l as [|i l]; [|cbn [items_size fold_right] in Hsz; pose proof (item_size_pos i); lia].
+    exists [], X. cbn. auto.
+  - destruct l as [|i l]; [exists [], X; cbn; auto|].
+    cbn [items_size fold_right] in Hsz. fold (items_size l) in Hsz. pose proof (item_size_pos i) as Hpos.
+    cbn [items_wf] in Hwf. destruct Hwf as [Hi Hl].
+    cbn [items_text fold_right] in H. fold (items_text l r) in H. unfold item_text in H.
+    destruct i as [b n0 ns c s|b|b n0 ns c s inner bc].
+    + cbn [item_b item_body item_wf] in *. destruct Hi as (Hb & H0 & Hns & Hfol). rewrite <- ?app_assoc in H.
+      tx_blk H b' X1 Hb' Hbn; [|exact Hb]. tx_lex H X2; [|exact (sense_no_tabs _ _ _ _ H0 Hns)].
+      pose proof (tabx_sense_follow _ _ Hfol H) as Hfol'.
+      destruct (IH l ltac:(lia) _ _ Hl H) as (l' & X' & -> & Hl' & Ht & Hlen & Hr).
+      exists (ISense b' n0 ns c s :: l'), X'. cbn [items_text fold_right]. fold (items_text l' X'). unfold item_text. cbn [item_b item_body].
+      split; [rewrite <- ?app_assoc; reflexivity|]. split; [cbn [items_wf item_wf]; split; [repeat (split; [assumption|]); assumption|exact Hl']|].
+      split; [unfold items_toks in *; cbn [flat_map item_toks]; rewrite Ht; reflexivity|]. split; [cbn; rewrite Hlen; reflexivity|exact Hr].
+    + cbn [item_b item_body item_wf] in *. tx_blk H b' X1 Hb' Hbn; [|exact Hi]. tx_chr H X2; [|reflexivity].
+      destruct (IH l ltac:(lia) _ _ Hl H) as (l' & X' & -> & Hl' & Ht & Hlen & Hr).
+      exists (IPlus b' :: l'), X'. cbn [items_text fold_right]. fold (items_text l' X'). unfold item_text. cbn [item_b item_body].
+      split; [reflexivity|]. split; [cbn [items_wf item_wf]; split; [exact Hb'|exact Hl']|].
+      split; [unfold items_toks in *; cbn [flat_map item_toks]; rewrite Ht; reflexivity|]. split; [cbn; rewrite Hlen; reflexivity|exact Hr].
+    + rewrite item_size_loop in Hsz. apply item_wf_loop in Hi as (Hb & H0 & Hns & Hbc & Hin).
+      rewrite item_body_loop in H. cbn [item_b] in H. rewrite <- ?app_assoc in H.
+      tx_blk H b' X1 Hb' Hbn; [|exact Hb]. tx_lex H X2; [|exact (sense_no_tabs _ _ _ _ H0 Hns)]. tx_chr H X3; [|reflexivity].
+      destruct (IH inner ltac:(lia) _ _ Hin H) as (inner' & Xi & -> & Hin' & Hti & _ & Hr).
+      tx_blk Hr bc' X4 Hbc' Hbcn; [|exact Hbc]. tx_chr Hr X5; [|reflexivity].
+      destruct (IH l ltac:(lia) _ _ Hl Hr) as (l' & X' & -> & Hl' & Ht & Hlen & Hr').
+      exists (ILoop b' n0 ns c s inner' bc' :: l'), X'. cbn [items_text fold_right]. fold (items_text l' X'). unfold item_text.
+      rewrite item_body_loop. cbn [item_b].
+      split; [rewrite <- ?app_assoc; reflexivity|].
+      split; [cbn [items_wf]; split; [apply item_wf_loop; repeat (split; [assumption|]); exact Hin'|exact Hl']|].
+      split; [unfold items_toks in *; cbn [flat_map]; rewrite !item_toks_loop; unfold items_toks; rewrite Hti, Ht; reflexivity|].
+      split; [cbn; rewrite Hlen; reflexivity|exact Hr'].
+Qed.
+Lemma items_tabs l r X : items_wf l r -> tabx (items_text l r) X ->
+  exists l' X', X = items_text l' X' /\ items_wf l' X' /\ items_toks l' = items_toks l /\ length l' = length l /\ tabx r X'.
+Proof. apply (items_tabs_n (items_size l)). lia. Qed.
+
+Lemma kc_text_tabs s T X : kc_stmt_ok s T -> tabx (kc_text s T) X ->
+  exists s' T', X = kc_text s' T' /\ kc_stmt_ok s' T' /\ kc_n0 s' :: kc_ns s' = kc_n0 s :: kc_ns s /\
+    items_toks (kc_first s' :: kc_more s') = items_toks (kc_first s :: kc_more s) /\ tabx T T'.
+Proof.
+  intros (H0 & Hns & Hkw & Hb2 & Hwf) H. unfold kc_text in H.
+  change (kc_n0 s :: kc_ns s ++ ?z) with ((kc_n0 s :: kc_ns s) ++ z) in H.
+  tx_lex H X1; [|exact (ident_no_tabs _ _ H0 Hns)]. tx_blk H b2 X2 Hb2' Hn2; [|exact Hb2]. tx_chr H X3; [|reflexivity].
+  apply items_tabs in H as (l' & T' & -> & Hwf' & Ht & Hlen & H); [|exact Hwf].
+  destruct l' as [|i0 l']; [discriminate Hlen|].
+  exists (mkKc (kc_n0 s) (kc_ns s) b2 i0 l'), T'. unfold kc_text, kc_stmt_ok. cbn [kc_n0 kc_ns kc_b2 kc_first kc_more].
+  split; [reflexivity|]. split; [repeat (split; [assumption|]); exact Hwf'|]. split; [reflexivity|]. split; [exact Ht|exact H].
+Qed.
+
+Theorem roundtrip_kernel_complex_tabs s b E :
+  blanks WS b -> stmt_end E [] -> kc_stmt_ok s E ->
+  exists f0, forall f, f0 <= f -> parse_pil_fuel f (b ++ kc_render s ++ E) = vals [kc_tree s].
+Proof.
+  intros Hb HE Hs. apply pil_tabs_reduce. intros X H Hnt.
+  assert (ET : kc_render s ++ E = kc_text s E).
+  { unfold kc_render, kc_text. repeat (rewrite <- ?app_assoc; cbn [app]). rewrite items_text_app. reflexivity. }
+  rewrite ET in H. tx_blk H b' X0 Hb' Hbn; [|exact Hb].
+  apply kc_text_tabs in H as (s' & E' & -> & Hs' & Hnm & Ht & H); [|exact Hs].
+  pose proof (tabx_stmt_end pil_nodes pil_c pil_ws pil_comment_ok sp_in_ws E E' HE H) as HE'.
+  assert (ET' : kc_text s' E' = kc_render s' ++ E').
+  { unfold kc_render, kc_text. repeat (rewrite <- ?app_assoc; cbn [app]). rewrite items_text_app. reflexivity. }
+  rewrite ET' in *. replace (kc_tree s) with (kc_tree s') by (unfold kc_tree; rewrite Hnm, Ht; reflexivity).
+  apply roundtrip_kernel_complex_parse; assumption.
+Qed.
+
+Lemma conc_tabs c r X : conc_ok c -> tabx (conc_text c ++ r) X ->
+  exists c' X', X = conc_text c' ++ X' /\ conc_ok c' /\ conc_toks c' = conc_toks c /\ tabx r X'.
+Proof.
+  intros (Hb1 & Hb2 & Hb3 & Hb4 & Hn) H. unfold conc_text in H. repeat (rewrite <- ?app_assoc in H; cbn [app] in H).
+  tx_blk H b1 X1 Hb1' Hn1; [|exact Hb1]. tx_chr H X2; [|reflexivity]. tx_blk H b2 X3 Hb2' Hn2; [|exact Hb2].
+  tx_lex H X4; [|destruct (c_kw c); reflexivity]. tx_blk H b3 X5 Hb3' Hn3; [|exact Hb3].
+  tx_lex H X6; [|exact (gnum_no_tabs _ Hn)]. tx_blk H b4 X7 Hb4' Hn4; [|exact Hb4].
+  tx_lex H X8; [|destruct (c_unit c); reflexivity].
+  exists (mkConc (c_kw c) (c_num c) (c_unit c) b1 b2 b3 b4), X8. unfold conc_text, conc_ok. cbn [c_kw c_num c_unit c_b1 c_b2 c_b3 c_b4].
+  split; [repeat (rewrite <- ?app_assoc; cbn [app]); reflexivity|]. split; [repeat (split; [assumption|]); exact Hn|]. split; [reflexivity|exact H].
+Qed.
+
+Theorem roundtrip_kernel_concentration_tabs s c b E :
+  blanks WS b -> stmt_end E [] -> conc_ok c -> kc_stmt_ok s (conc_text c ++ E) ->
+  exists f0, forall f, f0 <= f -> parse_pil_fuel f (b ++ kcc_render s c ++ E) = vals [kcc_tree s c].
+Proof.
+  intros Hb HE Hc Hs. apply pil_tabs_reduce. intros X H Hnt.
+  assert (ET : forall s c E, kcc_render s c ++ E = kc_text s (conc_text c ++ E)).
+  { intros. unfold kcc_render, kc_text. repeat (rewrite <- ?app_assoc; cbn [app]). rewrite items_text_app. reflexivity. }
+  rewrite ET in H. tx_blk H b' X0 Hb' Hbn; [|exact Hb].
+  apply kc_text_tabs in H as (s' & T' & -> & Hs' & Hnm & Ht & H); [|exact Hs].
+  apply conc_tabs in H as (c' & E' & -> & Hc' & Hct & H); [|exact Hc].
+  pose proof (tabx_stmt_end pil_nodes pil_c pil_ws pil_comment_ok sp_in_ws E E' HE H) as HE'.
+  rewrite <- ET in *. replace (kcc_tree s c) with (kcc_tree s' c') by (unfold kcc_tree; rewrite Hnm, Ht, Hct; reflexivity).
+  apply roundtrip_kernel_concentration_parse; assumption.
+Qed.
+
+(* ---------------------------------------------------------------- non-vacuity: the same instances with tabs *)
+Example dl_tabs_example :
+  let s := mkDl KwLength 97%N [] true DShort in
+  let y := mkDlLayout [9%N] [9; 32]%N 58%N [32; 9]%N in
+  let E := [9; 35; 9; 99; 10; 9; 10]%N in
+  dl_stmt_ok s /\ dl_layout_ok y /\ stmt_end E [] /\
+  parse_pil ([9%N] ++ dl_render s y ++ E) = vals [dl_tree s].
+Proof.
+  cbn zeta. split; [|split; [|split]].
+  - cbn. repeat split; try reflexivity. discriminate.
+  - cbn. repeat split; try reflexivity. right. reflexivity.
+  - change [9; 35; 9; 99; 10; 9; 10]%N with (([9%N] ++ HASH :: [9; 99]%N ++ [NL]) ++ concat [[9%N] ++ [NL]]).
+    apply pil_stmt_end_lines; [apply pil_blank_line_comment; reflexivity|].
+    constructor; [apply pil_blank_line_plain; reflexivity|constructor].
+  - vm_compute. reflexivity.
+Qed.
+Example sl_tabs_example :
+  let s := mkSl 97%N [49%N] false 67%N [84; 65; 71; 65]%N (Some (mkOptnum [9%N] 58%N [9%N] 54%N [])) in
+  let y := mkSlLayout [9%N] [9%N] 61%N [9%N] in
+  sl_stmt_ok s /\ sl_layout_ok y /\ parse_pil (sl_render s y ++ [NL]) = vals [sl_tree s].
+Proof.
+  cbn zeta. split; [|split].
+  - cbn. repeat split; try reflexivity. right. reflexivity.
+  - cbn. repeat split; try reflexivity. left. reflexivity.
+  - vm_compute. reflexivity.
+Qed.
+Example ms_tabs_example :
+  let s := mkMs KwMacrostate 101%N [52%N] 101%N [52%N]
+             [mkMember [9%N] [9%N] 101%N [53%N]; mkMember [] [] 102%N []] in
+  let y := mkMsLayout [9%N] [9%N] [9%N] [9%N] [9%N] in
+  ms_stmt_ok s /\ ms_layout_ok y /\ parse_pil (ms_render s y) = vals [ms_tree s].
+Proof.
+  cbn zeta. split; [|split].
+  - cbn. repeat split; try reflexivity. repeat constructor.
+  - cbn. repeat split; try reflexivity. discriminate.
+  - vm_compute. reflexivity.
+Qed.
+Example cd_tabs_example :
+  let s := mkCd KwStrand 113%N [] 97%N [] false
+             [mkDom [9%N] 98%N [45; 115; 101; 113]%N true; mkDom [32; 9]%N 122%N [] false]
+             (Some (mkOptnum [9%N] 58%N [9%N] 50%N [48%N])) in
+  let y := mkCdLayout [9%N] [9%N] 61%N [9%N] in
+  cd_stmt_ok s /\ cd_layout_ok y /\ parse_pil (cd_render s y ++ [NL]) = vals [cd_tree s].
+Proof.
+  cbn zeta. split; [|split].
+  - cbn. repeat split; try reflexivity; try discriminate.
+    + repeat constructor; discriminate.
+    + right. reflexivity.
+  - cbn. repeat split; try reflexivity. left. reflexivity.
+  - vm_compute. reflexivity.
+Qed.
+Example rx_tabs_example :
+  let s := mkRx KwKinetic 52%N [] [mkMember [9%N] [9%N] 67%N [49%N]] 55%N [] [] in
+  let y := mkRxLayout [9%N] [9%N] [9%N] in
+  rx_stmt_ok s /\ rx_layout_ok y /\ parse_pil (rx_render s y ++ [NL]) = vals [rx_tree s].
+Proof.
+  cbn zeta. split; [|split].
+  - cbn. repeat split; try reflexivity; repeat constructor.
+  - cbn. repeat split; try reflexivity. discriminate.
+  - vm_compute. reflexivity.
+Qed.
+Example rxi_tabs_example :
+  let s := mkRx KwReaction 65%N [] [mkMember [9%N] [9%N] 66%N []] 65%N [95; 66]%N [] in
+  let y := mkRxLayout [9%N] [9%N] [9%N] in
+  let i := mkInfobox (Some (mkIbname 107%N [49%N] [9%N] 61%N [9; 32]%N))
+             (mkGnum 49%N [] (Some (52%N, [49%N])) (Some (Some 43%N, 48%N, [55%N])))
+             (Some ([9%N], [9%N], ErrInf)) [UM] Us [9%N] [9%N] [9%N] [9%N] in
+  infobox_ok i /\ parse_pil (rxi_render s y i ++ [NL]) = vals [rxi_tree s i].
+Proof.
+  cbn zeta. split; [|vm_compute; reflexivity].
+  unfold infobox_ok, gnum_ok. cbn. repeat split; try reflexivity; auto.
+Qed.
+Example cx_tabs_example :
+  let s := mkCx 73%N [] 73%N [] false [mkDom [9%N] 65%N [] true] (mkDotb 40%N [40; 46; 43; 32; 41; 41]%N) in
+  let y := mkCxLayout [9%N] [9%N] 58%N (Some [9; 10]%N) [9%N] (Some [9; 10]%N) [9%N] in
+  cx_ok s y /\ parse_pil (cx_render s y ++ [NL]) = vals [cx_tree s].
+Proof.
+  cbn zeta. split; [|vm_compute; reflexivity].
+  unfold cx_ok. cbn [cx_n0 cx_ns cx_d0 cx_ds0 cx_doms cx_db cx_b1 cx_b2 cx_b3 cx_b4 cx_sgn cx_nl1 cx_nl2 optnl_ok].
+  repeat split; try reflexivity; try (right; reflexivity);
+    try (apply (pil_blank_line_plain [9%N]); reflexivity).
+  repeat constructor; try reflexivity. discriminate.
+Qed.
+Example st_tabs_example :
+  let s := mkSt 65%N [66%N] (SDom [9%N] 65%N [] false) [SPlus [9%N]; SDom [9%N] 66%N [] false]
+             (mkDotb 46%N [40; 40; 43; 41; 41]%N) in
+  let y := mkStLayout [9%N] [9%N] 61%N [9%N] 58%N [9%N] in
+  st_ok s y [NL] /\ parse_pil (st_render s y ++ [NL]) = vals [st_tree s].
+Proof.
+  cbn zeta. split; [|vm_compute; reflexivity].
+  unfold st_ok. cbn. repeat split; try reflexivity; try (left; reflexivity); right; reflexivity.
+Qed.
+Example kc_tabs_example :
+  let inner := [ISense [9%N] 98%N [] false false; IPlus [9%N];
+                ILoop [9%N] 99%N [] false false [] [9%N]] in
+  let s := mkKc 67%N [] [9%N] (ILoop [9%N] 97%N [] false false inner [9%N]) [ISense [9%N] 100%N [] true true] in
+  kc_stmt_ok s [NL] /\ parse_pil (kc_render s ++ [NL]) = vals [kc_tree s].
+Proof.
+  cbn zeta. split; [|vm_compute; reflexivity].
+  unfold kc_stmt_ok. cbn [kc_n0 kc_ns kc_b2 kc_first kc_more]. repeat split; try reflexivity.
+Qed.
+Example kcc_tabs_example :
+  let s := mkKc 67%N [] [9%N] (ISense [9%N] 97%N [] false true) [] in
+  let c := mkConc CI (mkGnum 49%N [] None (Some (Some 45%N, 55%N, []))) UnM [9%N] [9%N] [9%N] [9%N] in
+  conc_ok c /\ kc_stmt_ok s (conc_text c ++ [NL]) /\ parse_pil (kcc_render s c ++ [NL]) = vals [kcc_tree s c].
+Proof.
+  cbn zeta. split; [|split; [|vm_compute; reflexivity]].
+  - unfold conc_ok, gnum_ok. cbn. repeat split; try reflexivity. right. reflexivity.
+  - unfold kc_stmt_ok. cbn [kc_n0 kc_ns kc_b2 kc_first kc_more]. repeat split; try reflexivity.
 Qed.
